@@ -297,6 +297,45 @@ func scale(d time.Duration) time.Duration {
 	return d
 }
 
+// earlyDown: a timer-driven Down must not come before the detection time armed by the last
+// accepted packet (DetectMult x max(RequiredMinRx, DesiredMinTx), computed here in int64 ns).
+func earlyDown(x *sess) (string, bool) {
+	var lastR *obsEv
+	for i := range x.log {
+		ev := &x.log[i]
+		if ev.kind == 'R' {
+			lastR = ev
+		}
+		if ev.kind != 'C' || ev.state != stDown || lastR == nil || i == 0 {
+			continue
+		}
+		prev := &x.log[i-1]
+		// the StateChanges callback that directly follows a packet belongs to that packet, unless
+		// the packet changes nothing by RFC 5880 6.8.6 (then only the timer can have fired)
+		byPacket := prev.kind == 'R' && !(prev.state >= stDown && prev.remote >= 0 && rfc(prev.state, prev.remote) == prev.state)
+		afterRaw := prev.kind == 'C' && i >= 2 && x.log[i-2].kind == 'R'
+		if !byPacket && !afterRaw {
+			// not the transition of a packet being processed => detection timer
+			if el := ev.at.Sub(lastR.pre); el < lastR.detect*99/100 {
+				return fmt.Sprintf("%s went Down by its detection timer %v after the last accepted packet, whose detection time is %v", x.name, el, lastR.detect), true
+			}
+		}
+	}
+	return "", false
+}
+
+// bigDetect returns (mult, desiredMinTx in us) whose product is 2^32 us or a little more.
+func bigDetect(r *vlib.Rand) (int, uint32) {
+	ms := []int{2, 3, 5, 16, 255, r.Range(2, 255), r.Range(2, 255)}
+	m := ms[r.Intn(len(ms))]
+	tx := (uint64(1)<<32 + uint64(m) - 1) / uint64(m)
+	tx += uint64(r.Intn(4))
+	if tx > 0xffffffff {
+		tx = 0xffffffff
+	}
+	return m, uint32(tx)
+}
+
 // ---------------------------------------------------------------------------------------------
 // packets
 
@@ -372,7 +411,7 @@ type scriptRes struct {
 func runScript(e *vlib.Env, idx int, script []int, r *vlib.Rand, vmu *sync.Mutex) *sess {
 	x := newSess(fmt.Sprintf("script-%d", idx), 2*time.Millisecond, time.Millisecond, 3, uint32(idx+1))
 	x.start()
-	rep := map[string]any{"kind": "script", "script": script, "legend": "0..3 accepted packet with state AdminDown/Down/Init/Up; 4 silence (packet arming 1 ms detection, state in next item); 5 discardable packet"}
+	rep := map[string]any{"kind": "script", "script": script, "legend": "0..3 accepted packet with state AdminDown/Down/Init/Up; 4 silence (packet arming 1 ms detection, state in next item); 5 discardable packet; 6 Up packet with DetectMult x DesiredMinTx >= 2^32 us"}
 	for i := 0; i < len(script); i++ {
 		it := script[i]
 		switch {
@@ -410,6 +449,12 @@ func runScript(e *vlib.Env, idx int, script []int, r *vlib.Rand, vmu *sync.Mutex
 				vmu.Unlock()
 			}
 			time.Sleep(300 * time.Microsecond)
+		case it == 6:
+			// an Up packet whose detection time DetectMult x DesiredMinTx is 2^32 us or more
+			// (> 71 min): nothing may happen to the session for as long as we care to wait
+			m, tx := bigDetect(r)
+			x.deliver(pkt(stUp, uint32(r.Range(1, 1<<30)), uint32(r.Range(1, 1<<30)), m, tx, uint32(r.Range(1, 2000))), false)
+			time.Sleep(50 * time.Millisecond)
 		default:
 			p := longPkt(r.Intn(4), r)
 			switch r.Intn(6) {
@@ -440,6 +485,9 @@ func runScript(e *vlib.Env, idx int, script []int, r *vlib.Rand, vmu *sync.Mutex
 	x.stop()
 	vmu.Lock()
 	defer vmu.Unlock()
+	if what, bad := earlyDown(x); bad {
+		e.Violate("C16/early-down", what, map[string]any{"case": rep, "log": logText(x)})
+	}
 	fin := x.log[len(x.log)-1].state
 	if fin != stUp {
 		e.Violate("C16/no-recovery", fmt.Sprintf("after the history, packets Down and Init of a well-behaved peer leave the session in state %d, not Up", fin),
@@ -654,19 +702,8 @@ func runPair(e *vlib.Env, idx int, r *vlib.Rand, vmu *sync.Mutex) pairOut {
 	b.stop()
 	// a timer-caused Down must not come before the detection time armed by the last packet
 	for _, x := range []*sess{a, b} {
-		var lastR *obsEv
-		for i := range x.log {
-			ev := &x.log[i]
-			if ev.kind == 'R' {
-				lastR = ev
-			}
-			if ev.kind == 'C' && ev.state == stDown && lastR != nil && i > 0 && x.log[i-1].kind != 'R' &&
-				(x.log[i-1].kind != 'C' || i < 2 || x.log[i-2].kind != 'R') {
-				// not the transition of a packet being processed => detection timer
-				if el := ev.at.Sub(lastR.pre); el < lastR.detect*99/100 {
-					viol("C16/early-down", fmt.Sprintf("%s went Down by timer %v after the last packet, detection time was %v", x.name, el, lastR.detect))
-				}
-			}
+		if what, bad := earlyDown(x); bad {
+			viol("C16/early-down", what)
 		}
 	}
 	vmu.Lock()
@@ -774,6 +811,9 @@ func main() {
 			scripts = append(scripts, append(append([]int{}, prefix[l]...), rr, 4, r.Intn(4)))
 		}
 	}
+	for k := 0; k < 10; k++ {
+		scripts = append(scripts, []int{stDown, stInit, 6}, []int{stDown, stInit, 6, 6, stUp, 6})
+	}
 	for i, n := 0, e.N(240, 3000); i < n; i++ {
 		ln := r.Range(1, 14)
 		s := make([]int, 0, ln)
@@ -783,6 +823,8 @@ func main() {
 				s = append(s, 4)
 			case r.Chance(8):
 				s = append(s, 5)
+			case r.Chance(4):
+				s = append(s, 6)
 			case r.Chance(25):
 				s = append(s, stAdminDown)
 			default:
